@@ -182,6 +182,15 @@ def correspond_gen(prop):
             stats.update(rstats)
             if rerr:
                 res.harness_error = rerr
+        if prop == "C17":
+            import p_caps
+            dis, viol, cstats, cerr = p_caps.run_caps()
+            res.model_disagreements += dis
+            res.spec_violations += viol
+            res.evaluations += cstats.get("caps_matrix_cells", 0)
+            stats.update(cstats)
+            if cerr:
+                res.harness_error = cerr
         res.distinct_nontrivial = len(seen)
         res.stats = stats
         res.rule = oracles.RULES.get(prop, "")
